@@ -404,8 +404,8 @@ func (fc *FnCtx) fieldAddr(st *State, base Val, idx int, pos token.Pos) Val {
 	if !fc.declared[fn] {
 		fc.declared[fn] = true
 		fc.addPre(fmt.Sprintf("(declare-fun %s (Int) Int)", fn))
-		fc.addPre(fmt.Sprintf("(assert (forall ((p Int)) (! (not (= (%s p) 0)) :pattern ((%s p)))))", fn, fn))
-		fc.addPre(fmt.Sprintf("(assert (forall ((p Int) (q Int)) (! (=> (= (%s p) (%s q)) (= p q)) :pattern ((%s p) (%s q)))))", fn, fn, fn, fn))
+		fc.addAxiom(fn, fmt.Sprintf("(assert (forall ((p Int)) (! (not (= (%s p) 0)) :pattern ((%s p)))))", fn, fn))
+		fc.addAxiom(fn, fmt.Sprintf("(assert (forall ((p Int) (q Int)) (! (=> (= (%s p) (%s q)) (= p q)) :pattern ((%s p) (%s q)))))", fn, fn, fn, fn))
 	}
 	return Val{T: app(fn, base.T), Ty: types.NewPointer(f.Type())}
 }
@@ -574,8 +574,8 @@ func (fc *FnCtx) evalSliceExpr(st *State, x *ast.SliceExpr) Val {
 		}
 		fc.assert(st, and(fc.leIdx(zero, lo), fc.leIdx(lo, hi), fc.leIdx(hi, app("str.len", base.T))), "bounds", "string slice bounds", x.Pos())
 		fc.declareOnce("str.sub", fmt.Sprintf("(declare-fun str.sub (Str %s %s) Str)", fc.I(), fc.I()))
-		fc.declareOnce("str.sub.ax", fmt.Sprintf("(assert (forall ((s Str) (a %s) (b %s)) (! (= (str.len (str.sub s a b)) %s) :pattern ((str.sub s a b)))))", fc.I(), fc.I(), fc.subIdx("b", "a")))
-		fc.declareOnce("str.sub.ax2", fmt.Sprintf("(assert (forall ((s Str) (a %s) (b %s) (i %s)) (! (= (str.at (str.sub s a b) i) (str.at s %s)) :pattern ((str.at (str.sub s a b) i)))))", fc.I(), fc.I(), fc.I(), fc.addIdx("a", "i")))
+		fc.declareAxiomOnce("str.sub.ax", "str.sub", fmt.Sprintf("(assert (forall ((s Str) (a %s) (b %s)) (! (= (str.len (str.sub s a b)) %s) :pattern ((str.sub s a b)))))", fc.I(), fc.I(), fc.subIdx("b", "a")))
+		fc.declareAxiomOnce("str.sub.ax2", "str.sub", fmt.Sprintf("(assert (forall ((s Str) (a %s) (b %s) (i %s)) (! (= (str.at (str.sub s a b) i) (str.at s %s)) :pattern ((str.at (str.sub s a b) i)))))", fc.I(), fc.I(), fc.I(), fc.addIdx("a", "i")))
 		return Val{T: app("str.sub", base.T, lo, hi), Ty: fc.typeOf(x)}
 	case *types.Array:
 		fc.fail(x.Pos(), "slicing an array value (only via pointer or addressable local: outside subset)")
